@@ -6,7 +6,7 @@ from . import c03
 LEVEL = 'proof'
 RULE = ('pipeline scenes: random non-cubic shoeboxes, per-wall absorption, attenuation != 0, orders 0-3, single-direction '
         'Lambertian walls, histogram long enough for every arrival; position pairs with a source/receiver-patch delay within '
-        '1e-9 of an integer number of bins are skipped; non-trivial = order >= 1 and non-uniform walls')
+        '1e-9 of an integer number of bins are skipped; non-trivial = order >= 1 and non-uniform walls; both directions are computed on ONE object, then once more on that object at another speed of sound')
 ASSUMPTIONS = c03.ASSUMPTIONS + ['reciprocity of the form factors is by construction (upper triangle + area ratio, C05)',
                                  'the code\'s receiver kernel wraps (D3): theorem reciprocity_code needs the no-wrap hypothesis, the scenes satisfy it']
 EXPLANATION = 'path-sum/transposition proof over R[X]: A->B and B->A response polynomials are equal; floor/ceil bins match for non-integer delays.'
@@ -19,24 +19,35 @@ def check_swap(ctx, sc):
     c, dt = sc['c'], sc['dt']
     r = energy.build(sc)
     r.bake_geometry()
-    # skip pairs with an integer delay
-    for p in (A, Bp):
-        x = np.linalg.norm(r.patches_center - p, axis=1) / c / dt
-        if np.any(np.abs(x - np.round(x)) < 1e-9):
+    # the same object is used for both directions, and then again at another speed of sound (a used object, as in a
+    # temperature sweep): every run must be reciprocal
+    for run_no, cc in enumerate((c, c * 1.0371)):
+        # skip pairs with an integer delay
+        skip = False
+        for p in (A, Bp):
+            x = np.linalg.norm(r.patches_center - p, axis=1) / cc / dt
+            if np.any(np.abs(x - np.round(x)) < 1e-9):
+                skip = True
+        if skip:
             ctx.count('oracle.skipped_integer_delay')
-            return
-    r.init_source_energy(scenes.coords(A))
-    r.calculate_energy_exchange(c, dt, energy.duration_of(sc), sc['K'], recalculate=True)
-    ab = r.collect_energy_receiver_mono(scenes.coords(Bp)).time[0]
-    r.init_source_energy(scenes.coords(Bp))
-    r.calculate_energy_exchange(c, dt, energy.duration_of(sc), sc['K'], recalculate=True)
-    ba = r.collect_energy_receiver_mono(scenes.coords(A)).time[0]
-    ctx.oracle_evals += 2
-    peak = max(float(ab.max()), float(ba.max()), 1e-300)
-    if np.abs(ab - ba).max() > 1e-9 * peak:
-        k = np.unravel_index(int(np.argmax(np.abs(ab - ba))), ab.shape)
-        ctx.violation('reciprocity', 'curve at B for a source at A differs from the curve at A for a source at B (band %d, bin %d): %.6g vs %.6g'
-                      % (k[0], k[1], ab[k], ba[k]), energy.scene_input(sc), float(ab[k]), float(ba[k]))
+            if run_no == 0:
+                return
+            continue
+        r.init_source_energy(scenes.coords(A))
+        r.calculate_energy_exchange(cc, dt, energy.duration_of(sc), sc['K'], recalculate=True)
+        ab = r.collect_energy_receiver_mono(scenes.coords(Bp)).time[0]
+        r.init_source_energy(scenes.coords(Bp))
+        r.calculate_energy_exchange(cc, dt, energy.duration_of(sc), sc['K'], recalculate=True)
+        ba = r.collect_energy_receiver_mono(scenes.coords(A)).time[0]
+        ctx.oracle_evals += 2
+        ctx.count('swap.run_%d' % run_no)
+        peak = max(float(ab.max()), float(ba.max()), 1e-300)
+        if np.abs(ab - ba).max() > 1e-9 * peak:
+            k = np.unravel_index(int(np.argmax(np.abs(ab - ba))), ab.shape)
+            ctx.violation('reciprocity', 'curve at B for a source at A differs from the curve at A for a source at B (band %d, bin %d): %.6g vs %.6g%s'
+                          % (k[0], k[1], ab[k], ba[k], '' if run_no == 0 else '; second pair of runs on the same object, speed of sound changed from %r to %r' % (c, cc)),
+                          energy.scene_input(sc), float(ab[k]), float(ba[k]))
+            break
     if sc['K'] >= 1 and sc['kind'] != 'uniform':
         ctx.nontriv(['swap', energy.describe(sc)])
 
